@@ -483,6 +483,12 @@ func c08Gen(r *Rng, tier string) []string {
 			if r.N(3) == 0 {
 				vm, proc = "k-1", "ed-a:-:-"
 			}
+		case x < 20: // same-size curves crossed: the signature has the right length and hash, only the curve differs
+			if r.Bool() {
+				alg, vm, proc = "ES256", "k256-"+rep+"-a", "k256-a:sha256:"+r.Pick([]string{"p1363", "der"})
+			} else {
+				alg, vm, proc = "ES256K", "p256-"+rep+"-a", "p256-a:sha256:"+r.Pick([]string{"p1363", "der"})
+			}
 		case x < 22: // algorithm / key / procedure crossed
 			kt := r.Pick([]string{"ed", "p256", "p384", "p521", "k256", "rsa"})
 			vm = kt + "-" + rep + "-a"
